@@ -172,6 +172,8 @@ func run(r *core.Run) {
 	runCorpus(r)
 	runPatterns(r)
 	runGeneralise(r)
+	runDrops(r)
+	runJoinChains(r)
 	runChains(r)
 	runTables(r)
 	runSessions(r)
@@ -207,6 +209,11 @@ func runCorpus(r *core.Run) {
 	r.Begin("where-nil", true, "corpus")
 	out := r.Do("C05.match " + patternToken("select a from t1") + " " + stmtToken("select a from t1 where b = 1"))
 	r.Check(out == "false", "matcher-panic", "pattern `select a from t1` against `select a from t1 where b = 1` => "+out)
+
+	// an empty tuple in the pattern: areEqualValTuple indexed pattern[len(pattern)-1] (panic inside HandleQuery)
+	r.Begin("empty-tuple-pattern", true, "corpus")
+	out = r.Do("C05.match " + patternToken("insert into t1 values ()") + " " + stmtToken("insert into t1 values (1)"))
+	r.Check(out == "false", "matcher-panic", "pattern `insert into t1 values ()` against `insert into t1 values (1)` => "+out)
 
 	// a denied statement must not leave a pending entry (PostgreSQL simple query)
 	r.Begin("session-witness", true, "corpus")
